@@ -138,6 +138,18 @@ CHECKS['C18'] = dict(
    note=_REX_NOTE, technique='bounded runtime contracts against an independent count',
    design_ref='DESIGN.md 5 C18')
 
+CHECKS['C09'] = dict(
+   category='other',
+   text='Mixed. Proved on the real base.py: to_preferred_order puts known kinds in the standard order followed by the rest sorted and '
+        'returns a permutation of the keys; Constraint / MinConstraint / MaxConstraint.to_dict_value render dates as text (also inside the '
+        '{value, precision} form) and leave every other value untouched, for every value type x precision x raw; get_date leaves '
+        'non-strings (null bounds) alone. Bounded (labelled): write -> load -> write gives identical constraint text and is idempotent, '
+        'the text is valid UTF-8 JSON without trailing whitespace, unknown kinds and # keys change nothing, and path / dict / '
+        're-serialised forms give the same verdicts on 5 frames - over all single-kind sets and seeded random sets.',
+   note='Trusted: json round trip, str(datetime) layout. initialize_from_dict/to_json/load are bounded only.',
+   technique='contract-based deductive verification of the value renderers and key ordering + bounded round-trip contracts',
+   design_ref='DESIGN.md 5 C09')
+
 NA_REASON = 'check under construction in this session (see DESIGN.md 8, build order)'
 
 def main():
